@@ -22,6 +22,10 @@ def tasks(tier, seed):
                     t.append(("contracts.gemini_eval", "task", (cls, ovo, n, K, "C02", "clipped-sym", seed), to,
                               f"{cls}[{'ovo' if ovo else 'ova'},{n}x{K},clipped-sym]"))
                 if (n, K) == (2, 3):
+                    # the same contract with the predictions handed in column-major and as a strided view
+                    for lay in ("F", "strided"):
+                        t.append(("contracts.gemini_eval", "task", (cls, ovo, n, K, "C02", "interior", seed, lay), to,
+                                  f"{cls}[{'ovo' if ovo else 'ova'},{n}x{K},layout {lay}]"))
                     t.append(("contracts.gemini_eval", "task", (cls, ovo, n, K, "C02", "clipped-mixed", seed), to,
                               f"{cls}[{'ovo' if ovo else 'ova'},{n}x{K},clipped-mixed]"))
     # B: the same contracts replayed on the real code at a ladder of larger shapes (stand-in for the missing induction over n, K)
